@@ -40,6 +40,8 @@ type step struct {
 	Nonce   int    `json:"nonce,omitempty"`
 	Dur     int64  `json:"dur,omitempty"` // nanoseconds
 	On      bool   `json:"on,omitempty"`
+	Copy    bool   `json:"copy,omitempty"` // inject: the very octets of an earlier datagram once more (same nonce)
+	Own     int    `json:"own,omitempty"`  // start: what the caller does to the message it is handed (cli.Resp.Own)
 }
 
 type scriptT struct {
@@ -77,6 +79,9 @@ func genScript(rng *rand.Rand, famName string, gap bool) scriptT {
 		case (k < 3 || len(started) == 0) && ncalls < maxCalls:
 			ncalls++
 			st := step{Op: "start", Call: ncalls, Xid: uint32(1 + rng.IntN(pool)), Matcher: []string{"nil", "typed", "typed", "reject"}[rng.IntN(4)], Tries: 1 + rng.IntN(2)}
+			if rng.IntN(3) == 0 {
+				st.Own = 1 + rng.IntN(2)
+			}
 			sc.Steps = append(sc.Steps, st)
 			started = append(started, ncalls)
 		case k < 7:
@@ -92,6 +97,15 @@ func genScript(rng *rand.Rand, famName string, gap bool) scriptT {
 			if rng.IntN(8) == 0 && len(earlier) > 0 { // duplicate of an earlier datagram (new nonce, same content otherwise)
 				d := earlier[rng.IntN(len(earlier))]
 				st.Class, st.Xid, st.Type = d.Class, d.Xid, d.Type
+			}
+			if rng.IntN(5) == 0 && len(earlier) > 0 { // the same octets once more: mostly the datagram just before
+				d := earlier[len(earlier)-1]
+				if rng.IntN(3) == 0 {
+					d = earlier[rng.IntN(len(earlier))]
+				}
+				nonce--
+				st = d
+				st.Copy = true
 			}
 			earlier = append(earlier, st)
 			sc.Steps = append(sc.Steps, st)
@@ -322,6 +336,10 @@ func execute(t *testing.T, sc scriptT) (res map[int]*result, tx int, matcherNil 
 					case err == nil && got:
 						r.Kind, r.Nonce = "ok", rp.Nonce
 						r.again = rp.Again
+						if st.Own != 0 { // the message is the caller's now
+							rp.Own(st.Own, st.Xid%3+1)
+							r.again = nil
+						}
 					case err == nil:
 						r.Kind = "nilnil"
 					case f.IsNoResponse(err):
@@ -433,11 +451,13 @@ func judge(r *mon.Rec, t *testing.T, sc scriptT, tag string) {
 		return
 	}
 	inj := map[int]step{}
-	injStep := map[int]int{}
+	injStep := map[int]int{} // the last time these octets were injected
+	injCount := map[int]int{}
 	for i, s := range sc.Steps {
 		if s.Op == "inject" {
 			inj[s.Nonce] = s
 			injStep[s.Nonce] = i
+			injCount[s.Nonce]++
 		}
 	}
 	callOf := map[int]step{}
@@ -488,11 +508,11 @@ func judge(r *mon.Rec, t *testing.T, sc scriptT, tag string) {
 				bad("stale-datagram", "call %d (started at step %d) returned datagram %d injected at step %d, before it was waiting", id, startStep[id], d.Nonce, injStep[d.Nonce])
 				return
 			}
-			if prev, dup := seen[d.Nonce]; dup {
-				bad("shared-response", "datagram %d returned by calls %d and %d", d.Nonce, prev, id)
+			if prev := seen[d.Nonce]; prev >= injCount[d.Nonce] {
+				bad("shared-response", "datagram %d, injected %d times, returned by %d calls (call %d among them)", d.Nonce, injCount[d.Nonce], prev+1, id)
 				return
 			}
-			seen[d.Nonce] = id
+			seen[d.Nonce]++
 		}
 		if !rr.Returned {
 			bad("never-returned", "call %d never returned", id)
